@@ -270,8 +270,9 @@ def resolve_variants(j):
         have = [v['name'] for v in a.get('variants', [])]
         if len(have) != len(want) or have == want or any(v['fields'] for v in a['variants']):
             continue
-        if set(have) & set(want):
-            continue  # partially renamed / reordered: do not guess
+        if any(h != w and h in want for h, w in zip(have, want)):
+            continue  # a pinned name at another position: reordered (or swapped) - do not guess
+        # (a partial rename - `Zero` -> `Initial`, the other two kept in place - is a rename by position like a full one)
         done[canon(a['name'])] = dict(zip(have, want))
         for v, w in zip(a['variants'], want):
             v['actual_name'] = v['name']
